@@ -38,7 +38,7 @@ type modLoc struct {
 // allowedMods evaluates the top-level modifies clauses at entry.
 func (ex *Exec) allowedMods(st *State, fr *Frame) []modLoc {
 	sp := fr.Spec
-	if sp == nil || sp.ModAll {
+	if sp == nil {
 		return nil
 	}
 	var out []modLoc
@@ -99,6 +99,9 @@ func (ex *Exec) lvalueLocs(env *SpecEnv, e ast.Expr) []modLoc {
 	case *ast.IndexExpr:
 		// s[*] or s[lo:hi] written as s[all]
 		base := env.eval(x.X)
+		if _, isMap := under(base.T).(*types.Map); isMap {
+			return []modLoc{{class: mapClass(base.T), ref: base.V.(Scalar).T}}
+		}
 		s, ok := base.V.(SliceV)
 		if !ok {
 			tool("modifies: %s is not a slice", exprString(x.X))
@@ -113,6 +116,9 @@ func (ex *Exec) lvalueLocs(env *SpecEnv, e ast.Expr) []modLoc {
 func classMatches(class, prefix string) bool {
 	if class == prefix {
 		return true
+	}
+	if strings.HasPrefix(prefix, "map:") {
+		return strings.HasPrefix(class, prefix+"#")
 	}
 	if strings.HasSuffix(prefix, ".") {
 		return strings.HasPrefix(class, prefix)
@@ -177,6 +183,22 @@ func (ex *Exec) checkFrameElem(st *State, p *PtrV, pos token.Pos, cond ...*Term)
 	ex.emit(st, "frame", ex.srcLabel(st.top().Fn, pos, "store:"+class), g, pos, top.Spec.Props)
 }
 
+// checkFrameMap: writing a map needs the map (or '*') in the modifies clause, unless the map is fresh.
+func (ex *Exec) checkFrameMap(st *State, t types.Type, ref *Term, pos token.Pos) {
+	top := ex.topFrame(st)
+	if top.Spec == nil || top.Spec.ModAll || ex.pure != nil || st.Fresh[ref] {
+		return
+	}
+	class := mapClass(t)
+	alts := []*Term{Lt(top.EntryFull.Frontier, ref)}
+	for _, m := range top.Mods {
+		if m.ref != nil && m.class == class {
+			alts = append(alts, Eq(ref, m.ref))
+		}
+	}
+	ex.emit(st, "frame", ex.srcLabel(st.top().Fn, pos, "mapwrite:"+class), Or(alts...), pos, top.Spec.Props)
+}
+
 func (ex *Exec) checkImmutable(st *State, p *PtrV, pos token.Pos) {
 	if p.Root != RObj || len(p.Path) == 0 || p.Path[0].Field < 0 {
 		return
@@ -221,7 +243,7 @@ func (ex *Exec) havocLvalue(st *State, fr *Frame, env *SpecEnv, m Clause, pos to
 		_ = touched
 		// caller frame: the callee's footprint must be inside the caller's
 		top := ex.topFrame(st)
-		if top.Spec != nil && !top.Spec.ModAll && ex.pure == nil && !st.Fresh[loc.ref] {
+		if top.Spec != nil && (!top.Spec.ModAll || isGhostClass(loc.class)) && ex.pure == nil && !st.Fresh[loc.ref] {
 			var alts []*Term
 			alts = append(alts, Lt(top.EntryFull.Frontier, loc.ref))
 			for _, mm := range top.Mods {
@@ -239,6 +261,7 @@ func (ex *Exec) havocLvalue(st *State, fr *Frame, env *SpecEnv, m Clause, pos to
 // havocLoop forgets everything the loop body may change: local cells stored in the loop and heap classes.
 func (ex *Exec) havocLoop(st *State, fr *Frame, ld *loopDesc) {
 	heapAll := false
+	ghostAll := false
 	classes := map[string]bool{}
 	var scan func(fn *ssa.Function, blocks map[*ssa.BasicBlock]bool, depth int)
 	scan = func(fn *ssa.Function, blocks map[*ssa.BasicBlock]bool, depth int) {
@@ -282,6 +305,15 @@ func (ex *Exec) havocLoop(st *State, fr *Frame, ld *loopDesc) {
 							}
 							continue
 						}
+						if sp, ok := ex.Specs.Ifaces[key]; ok {
+							for _, m := range sp.Modifies {
+								for _, c := range ex.staticModClasses(sp, nil, cc.Method.Type().(*types.Signature), m.Expr) {
+									classes[c] = true
+								}
+							}
+						} else {
+							ghostAll = true
+						}
 						heapAll = true
 						continue
 					}
@@ -301,6 +333,7 @@ func (ex *Exec) havocLoop(st *State, fr *Frame, ld *loopDesc) {
 					callee := cc.StaticCallee()
 					if callee == nil {
 						heapAll = true
+						ghostAll = true
 						continue
 					}
 					full := callee.String()
@@ -328,7 +361,6 @@ func (ex *Exec) havocLoop(st *State, fr *Frame, ld *loopDesc) {
 						}
 						if sp.ModAll {
 							heapAll = true
-							continue
 						}
 						for _, m := range sp.Modifies {
 							for _, c := range ex.staticModClasses(sp, callee, callee.Signature, m.Expr) {
@@ -345,19 +377,24 @@ func (ex *Exec) havocLoop(st *State, fr *Frame, ld *loopDesc) {
 						continue
 					}
 					heapAll = true
+					if callee.Blocks != nil && ex.inRepo(callee) {
+						ghostAll = true
+					}
 				}
 			}
 		}
 	}
 	scan(fr.Fn, ld.Blocks, fr.Depth)
 	if heapAll {
-		ex.havocAll(st, true)
+		ex.havocAll(st, true, ghostAll)
 		nf := Fresh("hi", SInt)
 		st.assume(Le(st.Frontier, nf))
 		st.Frontier = nf
-		return
 	}
 	for c := range classes {
+		if heapAll && !isGhostClass(c) {
+			continue
+		}
 		for class := range classSorts {
 			if classMatches(class, c) || class == c {
 				st.havocClass(class)
@@ -528,6 +565,9 @@ func (ex *Exec) staticModClasses(sp *FuncSpec, fn *ssa.Function, sig *types.Sign
 			if sl, ok := under(t).(*types.Slice); ok {
 				return []string{"[]" + typeName(sl.Elem())}
 			}
+			if _, ok := under(t).(*types.Map); ok {
+				return []string{mapClass(t)}
+			}
 		}
 	}
 	return []string{""} // unknown: matches everything via prefix
@@ -544,6 +584,19 @@ func (ex *Exec) checkPost(st *State, fr *Frame, res Value) {
 	env.old = fr.EntryFull
 	env.bindResults(fr.Fn.Signature, res)
 	pos := fr.Fn.Pos()
+	if call, ok := sp.ReplayPost.(*ast.CallExpr); ok {
+		saveA, saveL, saveF := ex.ReplayArgs, ex.ReplayLen, ex.ReplayFn
+		ex.ReplayArgs, ex.ReplayLen = nil, nil
+		for _, a := range call.Args {
+			ex.ReplayArgs = append(ex.ReplayArgs, env.eval(a))
+			ex.ReplayLen = append(ex.ReplayLen, false)
+		}
+		if id, ok := call.Fun.(*ast.Ident); ok {
+			ex.ReplayFn = id.Name
+		}
+		ex.ReplayPkg = pkgOfFn(fr.Fn)
+		defer func() { ex.ReplayArgs, ex.ReplayLen, ex.ReplayFn = saveA, saveL, saveF }()
+	}
 	for i, c := range sp.Ensures {
 		t := ex.evalBool(env, c.Expr)
 		if k, ok := sp.Known[c.Label]; ok && c.Label != "" {
@@ -629,6 +682,27 @@ func (ex *Exec) VerifyFunc(sp *FuncSpec) {
 	}
 	fr.EntryFull = st.snapshotFull()
 	fr.Mods = ex.allowedMods(st, fr)
+	// events: the call being verified has already happened
+	for _, ev := range sp.Events {
+		_ = env.eval(ev.Expr) // materialise the ghost class
+		for _, loc := range ex.lvalueLocs(env, ev.Expr) {
+			for class, srt := range classSorts {
+				if class == loc.class && srt.Kind == KArr && srt.Elem == SInt {
+					h := st.heapGet(class, srt)
+					st.Heap[class] = Store(h, loc.ref, Add(Select(h, loc.ref), One))
+				}
+			}
+		}
+	}
+	for _, gs := range sp.EntrySets {
+		var vals []TV
+		for _, e := range gs.Exprs {
+			vals = append(vals, env.eval(e))
+		}
+		for i, n := range gs.Names {
+			env.setGhostGlobal(n, vals[i])
+		}
+	}
 	if call, ok := sp.Replay.(*ast.CallExpr); ok {
 		for _, a := range call.Args {
 			tv := env.eval(a)
